@@ -70,6 +70,14 @@ PROPS = {
         "trusted_base": TB_ALGEBRA,
         "hypotheses": [],
     },
+    "C08": {
+        "units": [gen("C08")],
+        "level_text": "Deductive proof (Verus) of the blsful side of threshold signing: partial signatures and public-key shares are the share scalar times H(m) resp. G, carry the identifier, are bound to the scheme, verify against the participant's own key share and no other. Splitting and Lagrange recombination are vsss-rs and are assumed.",
+        "trusted_base": TB_ALGEBRA + ["L-VSSS: Share accessors and checked decoding; shamir::split_secret, combine_shares, combine_shares_group and the Lagrange interpolation identity are NOT verified"],
+        "hypotheses": [X_NONID],
+        "not_decided": ["any t of n shares recombine to the key / public key / whole-key signature (vsss-rs interpolation)", "fewer than t shares never yield the key (information-theoretic)", "empty/single/duplicate/zero-identifier share sets are errors (vsss-rs combiner)",
+                        "Signature::from_shares / PublicKey::from_shares / SecretKey::split / combine: their bodies use iterator adapters (skip/all, into_iter/map) and vsss calls outside the verified subset; exercised on the real crate by the witness family only"],
+    },
     "C09": {
         "units": [gen("C09")],
         "trusted_base": TB_ALGEBRA,
@@ -158,6 +166,14 @@ PROPS = {
         "trusted_base": TB_ALGEBRA + ["A-TIME (see C10)", "L-SERDE: serde / serde_bare / serde_json decoders and the curve crates' parsers are not verified"],
         "hypotheses": [],
         "not_decided": ["serde-derived decoders (serde_bare / serde_json) and the curve crates' own parsers", "termination of the two probabilistic retry loops (zero scalar re-draw)"],
+    },
+    "C18": {
+        "units": [dict(gen("C18"), layout_pins=True),
+                  {"name": "IMPL", "backend": "verus", "props": ["C18_impl.rs"], "tags": ["C18"], "specs": "contracts_impl", "prelude": "impl"}],
+        "level_text": "Deductive proof (Verus) that every producer and consumer of blsful's own wire formats implements the PINNED reference constructions (spec functions frozen from the pinned release: framing, masks, hash inputs, transcript labels and order, salts, tags, KeyGen parameters, curve tag bytes), plus a syntactic pin of the field / variant order of every serialized data type. Decoding a golden corpus with real curve arithmetic is execution, not deduction, and is not part of this check.",
+        "trusted_base": TB_ALGEBRA + ["H-*: the hash / XOF / HKDF / transcript primitives are uninterpreted functions of their exact inputs", "L-SERDE: the serde_bare layout is determined by field and variant order (pinned syntactically) — the derive expansions themselves are not verified"],
+        "hypotheses": [],
+        "not_decided": ["acceptance of a golden corpus produced by the pinned release (needs execution of the real curve arithmetic)", "interoperability with an independent implementation on concrete inputs"],
     },
     "C20": {
         "units": [gen("C20")],
